@@ -524,6 +524,72 @@ func checkStatsAndReads(c *ctx, h *History, layout []FileObs, q *bs.Query, sc qS
 			if fmt.Sprint(got) != fmt.Sprint(wantStats) {
 				c.r.Add(Finding{Kind: "disagreement", Check: "stats-vs-plan", Detail: "BlockStats differ from the Lean read plan (offset -> S skipped / P processed)", Replay: map[string]any{"query": q, "impl": fmt.Sprint(got), "model": fmt.Sprint(wantStats), "ops": h.Ops}})
 			}
+			// the accounting model (Model/Stats): entries and totals of every file the plan does not prune as a whole
+			perBlock := map[string]int{}
+			for _, row := range out.rows {
+				if f, ok := row["_id"].(float64); ok {
+					perBlock[blockOf[int(f)]]++
+				}
+			}
+			for fi, f := range layout {
+				pf := strings.Fields(plans[fi])
+				if pf[2] == "0" {
+					continue
+				}
+				qt := (&toks{}).add("qstats").add(b2s(hasBloom)).n(len(f.Blocks))
+				for _, b := range f.Blocks {
+					k := fmt.Sprint(f.Ptr, "@", b.Meta.RowDataOffset)
+					pre := "0"
+					if _, owed := wantStats[k]; owed {
+						pre = "1"
+					}
+					fl := true
+					if b.Filters != nil {
+						fl = filtersAdmit(b.Filters, prune)
+					}
+					qt.n(b.Meta.RowDataOffset).n(b.Meta.Rows).add(pre).add(b2s(fl)).n(b.Meta.BloomFilterSize).n(b.Meta.UncompressedSize).n(perBlock[k])
+				}
+				resp := strings.SplitN(c.m.Ask(qt.String()), " | ", 2)
+				var gotE []string
+				var rs, bsum int64
+				np, ns := 0, 0
+				for _, b := range st.BlockStats {
+					if string(b.FilePointer) != f.Ptr {
+						continue
+					}
+					tag := "P"
+					if b.BloomFilterSkipped {
+						tag = "S"
+						ns++
+					} else {
+						np++
+					}
+					rs += b.RowsProcessed
+					bsum += b.BytesProcessed
+					gotE = append(gotE, fmt.Sprintf("%d %s %d %d", b.BlockOffset, tag, b.RowsProcessed, b.BytesProcessed))
+				}
+				sort.Strings(gotE)
+				mf := strings.Fields(resp[0])
+				var wantE []string
+				for i := 1; i+3 < len(mf); i += 4 {
+					wantE = append(wantE, strings.Join(mf[i:i+4], " "))
+				}
+				sort.Strings(wantE)
+				c.r.Hit("c23.accounting-compared")
+				gotT := fmt.Sprintf("%d %d %d %d %d", rs, bsum, np, ns, func() int {
+					n := 0
+					for k, v := range perBlock {
+						if strings.HasPrefix(k, f.Ptr+"@") {
+							n += v
+						}
+					}
+					return n
+				}())
+				if fmt.Sprint(gotE) != fmt.Sprint(wantE) || (len(resp) > 1 && gotT != resp[1]) {
+					c.r.Add(Finding{Kind: "disagreement", Check: "stats-accounting", Detail: fmt.Sprintf("clean completion: the entries / sums of file %s differ from the Lean accounting model (offset S|P rows bytes; rowsScanned bytesScanned processed skipped rowsMatched)", f.Ptr),
+						Replay: map[string]any{"query": q, "impl_entries": gotE, "model_entries": wantE, "impl_sums": gotT, "model_sums": resp[len(resp)-1], "ops": h.Ops}})
+				}
+			}
 			if st.RowsMatched != int64(len(out.rows)) {
 				c.r.Add(Finding{Kind: "violation", Check: "rows-matched", Detail: fmt.Sprintf("RowsMatched=%d but %d rows were returned on clean completion", st.RowsMatched, len(out.rows)), Replay: replay})
 			}
